@@ -104,9 +104,10 @@ Proof.
     + cbn [s_loc]. eapply idm_mono; [apply (assign_incl vars es l (EName n0 ln)); apply in_or_app; left; exact Hvin|apply id_marks_idm].
     + rewrite Forall_forall in IHe. eapply idm_mono; [apply (assign_incl vars es l e); apply in_or_app; right; exact He|eapply IHe; eauto].
   - intros ns ls at_ es l _ _ _ _ IHe flv slv reg en o Hin.
-    destruct (in_b_local flv slv reg ns ls at_ es l en o Hin) as [(i & e & o0 & Hnth & Ho0 & (Hl & _) & _)|((nm & lx) & bb & Hnl & ->)].
+    destruct (in_b_local flv slv reg ns ls at_ es l en o Hin) as [(i & e & o0 & Hnth & Ho0 & (Hl & _))|((nm & lx) & bb & Hnl & ->)].
     + rewrite Hl. cbn [m2_stat]. rewrite Forall_forall in IHe. pose proof (nth_error_In _ _ Hnth) as He.
-      eapply idm_mono; [|eapply IHe; eauto]. apply incl_appr. apply incl_flat_map_in. exact He.
+      eapply idm_mono; [|eapply IHe; eauto]. apply incl_appr.
+      eapply incl_tran; [apply incl_flat_map_in; exact He|apply incl_region_marks].
     + cbn [m2_stat]. apply in_combine_l in Hnl. eapply idm_mono; [apply incl_appl; apply incl_refl|eapply decl_idm; eauto].
   - intros n0 nl f ps pls b lf va l _ _ IH flv slv reg en o Hin. cbn [b_stat snd] in Hin. destruct Hin as [<-|Hin].
     + cbn [s_loc decl_occ snd m2_stat]. split; right; apply in_or_app; left; [left; reflexivity|right; left; reflexivity].
